@@ -16,6 +16,11 @@ Correspondence (model executed on exact rationals with vm_compute):
   (C) Simulation._compute_1d(gradient=True) and Simulation.gradient  ==  the
       model's layered_grad run with a table oracle of empymod responses for
       the perturbed layers (second Coq round).
+  (M) result assembly: 18 enumerated classes of finite-observed-data masks on
+      laterally invariant models with receivers at distinct offsets; every slot of
+      Simulation(layered=True).data.synthetic == what Model/LayeredAsm.v compute_1d
+      puts there (NaN or the reference of a (source label, receiver label, frequency),
+      evaluated by empymod per label); gradient layer sums for two classes.
 Searcher: directly on the implementation, laterally invariant random models:
 independence from method/ellipse, agreement with empymod on the known profile,
 weights, finite-data mask, layer sums of the gradient vs the misfit change of a
@@ -40,7 +45,12 @@ LEVEL_TEXT = ("Theorems (Props/C19.v) about the hand model of Model.extract_1d /
               "(receiver, frequency) slot holds the reference modeller applied to exactly those layers, "
               "and is NaN iff observed data exist and are non-finite there; the finite-difference "
               "gradient summed over x,y in layer k is the sum over receivers of their misfit quotient for "
-              "layer k; no data -> zero gradient.")
+              "layer k; no data -> zero gradient. Result assembly (Model/LayeredAsm.v, imperative: pre-allocated "
+              "NaN array, enumerate index carried through `continue`, mask looked up by receiver label): for "
+              "EVERY receiver list and EVERY finite mask, row r of layered() holds the reference response of "
+              "receiver r (by label) at exactly the finite entries of its mask and NaN elsewhere; over all "
+              "sources (_compute_1d) slot (s, r, f) is computed iff its datum is finite or the survey has no "
+              "finite datum at all; the filtered-index variant is refuted.")
 LEVEL_NOTE = ("Hand model tied to the code by correspondence only. Oracles (not proved): empymod.bipole "
               "(contract used: frequencies are computed independently; validated by per-frequency calls), "
               "maps.ellipse_indices (any mask), Map*.backward, log10/10**. The FD quotient approximating "
@@ -54,6 +64,7 @@ DESIGN_REF = "DESIGN.md section 6 C19"
 GEN = []
 PROPS = 'Props/C19.v'
 TRUSTED = ["Model/Layered.v: hand model of extract_1d / layered / _fd_gradient (tied by correspondence)",
+           "Model/LayeredAsm.v: hand model of the result assembly of layered() / _compute_1d (tied by correspondence)",
            "empymod.bipole (third party) is an oracle; the harness calls it with the model's arguments",
            "emg3d.maps.ellipse_indices output is passed to the model as the mask oracle",
            "Map*.backward / derivative_chain (property C14) are used as given by the harness"]
@@ -1090,6 +1101,12 @@ def compare_grad(c, answers, dis):
             return
     misfit = float(sim.misfit)
     scale = 1e-7 * max(np.max(np.abs(tot)), 1e-300)
+    if not np.all(np.isfinite(raw)):
+        k = np.unravel_index(np.argmax(~np.isfinite(raw)), raw.shape)
+        dis.append({'what': 'layered finite-difference gradient (_compute_1d) is not finite where the model is',
+                    'case': sim_brief(c), 'index': [int(x) for x in k], 'impl': str(raw[k]),
+                    'model': float(tot[k])})
+        return
     if np.max(np.abs(raw - tot)) > scale + 1e-9 * misfit / 1e-4 / max(1e-3, float(np.min(np.abs(
             model.map.backward(model.property_x))))):
         k = np.unravel_index(np.argmax(np.abs(raw - tot)), raw.shape)
@@ -1242,6 +1259,421 @@ def run_sims(ctx, n, ngrad, dis, hist):
     return n, triples, ng, len(seen), [sim_brief(c) for c in cases[:2]]
 
 
+# ---- (M) result assembly: WHICH slot holds WHICH response, for enumerated mask classes
+ASM_HEADER = (K.CASE_HEADER + """From Coq Require Import String Bool.
+From V Require Import Model.Layered Model.LayeredAsm.
+Fixpoint idx (l : list string) (k : string) (n : Z) : Z :=
+  match l with [] => (-1) | a :: t => if String.eqb a k then n else idx t k (n + 1) end.
+Definition tok3 (sl rl : list string) (s k : string) (fs : list Z) : list (Z * Z * Z) :=
+  map (fun f => (idx sl s 0, idx rl k 0, f)) fs.
+Definition show_asm (o : list (list (list (option (Z * Z * Z))))) :=
+  map (map (map (fun x => match x with Some t => (true, t) | None => (false, (0, 0, 0)) end))) o.
+""")
+
+# (name, number of sources, number of receivers): finite-observed-data patterns, enumerated
+MASK_CLASSES = [
+    ('dataless-receiver-first', 1, 4), ('dataless-receiver-middle', 2, 4), ('dataless-receiver-last', 1, 3),
+    ('two-dataless-in-a-row-front', 1, 5), ('two-dataless-in-a-row-middle', 2, 5),
+    ('all-but-last-dataless', 1, 4), ('all-but-first-dataless', 1, 3), ('all-but-middle-dataless', 2, 5),
+    ('alternating-dataless', 1, 5), ('partial-gaps-only', 2, 4), ('dataless-first+partial-gaps', 2, 4),
+    ('per-source-different-dataless', 2, 4), ('dataless-source-first', 2, 3), ('dataless-source-middle', 3, 3),
+    ('no-observed-data', 2, 3), ('full', 1, 3), ('eleven-receivers-dataless-2nd-and-10th', 1, 11),
+    ('random-30%-gaps', 2, 5)]
+MASK_METHODS = ['source', 'receiver', 'midpoint', 'prism', 'cylinder']
+MASK_GRAD_CLASSES = ('dataless-receiver-first', 'two-dataless-in-a-row-middle')
+
+
+def mask_flags(name, nsrc, nrec, nfreq, rng):
+    """Finite flags (nsrc, nrec, nfreq) of the observed data for a mask class."""
+    f = np.ones((nsrc, nrec, nfreq), bool)
+    mid = nrec // 2
+
+    def gaps(keep_one=True):
+        for si in range(nsrc):
+            for ri in range(nrec):
+                if not f[si, ri].any():
+                    continue
+                for fj in range(nfreq):
+                    if rng.random() < 0.4:
+                        f[si, ri, fj] = False
+                if keep_one and not f[si, ri].any():
+                    f[si, ri, rng.randrange(nfreq)] = True
+    if name == 'dataless-receiver-first':
+        f[:, 0] = False
+    elif name == 'dataless-receiver-middle':
+        f[:, rng.randint(1, nrec - 2)] = False
+    elif name == 'dataless-receiver-last':
+        f[:, -1] = False
+    elif name == 'two-dataless-in-a-row-front':
+        f[:, :2] = False
+    elif name == 'two-dataless-in-a-row-middle':
+        f[:, 1:3] = False
+    elif name == 'all-but-last-dataless':
+        f[:, :-1] = False
+    elif name == 'all-but-first-dataless':
+        f[:, 1:] = False
+    elif name == 'all-but-middle-dataless':
+        f[:, :mid] = False
+        f[:, mid + 1:] = False
+    elif name == 'alternating-dataless':
+        f[:, ::2] = False
+    elif name == 'partial-gaps-only':
+        gaps()
+        if f.all():
+            f[0, 0, 0] = False
+    elif name == 'dataless-first+partial-gaps':
+        f[:, 0] = False
+        gaps()
+    elif name == 'per-source-different-dataless':
+        f[0, 0] = False
+        f[1, rng.randint(1, nrec - 2)] = False
+        gaps()
+    elif name == 'dataless-source-first':
+        f[0] = False
+        f[1, 0] = False
+    elif name == 'dataless-source-middle':
+        f[1] = False
+        f[0, 1] = False
+        f[2, 0] = False
+    elif name == 'no-observed-data':
+        f[...] = False
+    elif name == 'eleven-receivers-dataless-2nd-and-10th':
+        f[:, 1] = False
+        f[:, 9] = False
+        gaps()
+    elif name == 'random-30%-gaps':
+        f &= np.array([[[rng.random() >= 0.3 for _ in range(nfreq)] for _ in range(nrec)] for _ in range(nsrc)])
+        f[0, rng.randrange(nrec - 1)] = False
+        if not f.any():
+            f[-1, -1, -1] = True
+    return f
+
+
+def mask_problem(seed, ki):
+    """A laterally invariant model + survey with receivers at clearly DISTINCT offsets (steps of
+    >= 500 m along a line: neighbouring receivers differ by large factors) + the finite flags of
+    mask class [ki].  Everything derived from (seed, ki)."""
+    import random
+    import emg3d
+    rng = random.Random(f"c19-mask-{int(seed)}-{int(ki)}")
+    name, nsrc, nrec = MASK_CLASSES[ki]
+    grid, hs, org = rand_grid(rng, (4, 4, 4), (2, 2, 3))
+    mapping = MAPS[(ki + seed) % len(MAPS)]
+    model, kw, mapping, case = rand_model(rng, grid, mapping=mapping, layered_ok=True, lateral_invariant=True)
+    z0, z1 = org[2], org[2] + sum(hs[2])
+
+    def zc():
+        return z0 + rng.randint(0, int((z1 - z0) / 8)) * 8.0 + 3.0
+    cx = org[0] + sum(hs[0]) / 2 // 16 * 16
+    cy = org[1] + sum(hs[1]) / 2 // 16 * 16
+    while True:
+        th = rng.choice([0.0, 30.0, 45.0, 120.0, 200.0, 270.0, 315.0]) * np.pi / 180
+        spos = [np.array([cx, cy]) + q * np.array([-np.cos(th) * 640.0 - np.sin(th) * 352.0,
+                                                    -np.sin(th) * 640.0 + np.cos(th) * 352.0])
+                for q in range(nsrc)]
+        offs = [(512.0 + 608.0 * k + 16.0 * rng.randint(0, 6)) for k in range(nrec)]
+        rpos = [np.round((spos[0] + r * np.array([np.cos(th), np.sin(th)])) / 8.0) * 8.0 for r in offs]
+        rel = [rng.random() < 0.3 for _ in range(nrec)]
+        ok = True
+        for k in range(nrec):
+            for q in range(nsrc):
+                p = rpos[k] + (spos[q] - spos[0] if rel[k] else 0.0)
+                if any(np.hypot(*(p - sp)) < 250.0 for sp in spos):
+                    ok = False
+        if ok:
+            break
+    srcs = []
+    for q in range(nsrc):
+        kind = rng.choice(['ed5', 'ed6', 'md5', 'ep', 'mp'])
+        x, y, z = float(spos[q][0]), float(spos[q][1]), zc()
+        az, el = rng.choice([0.0, 30.0, 90.0, -45.0]), rng.choice([0.0, 0.0, 20.0, 90.0])
+        if kind == 'ed5':
+            srcs.append(emg3d.TxElectricDipole((x, y, z, az, el), strength=rng.choice([1.0, 2.0])))
+        elif kind == 'ed6':
+            srcs.append(emg3d.TxElectricDipole((x - 32.0, x + 32.0, y, y + rng.choice([0.0, 32.0]), z, z + 8.0)))
+        elif kind == 'md5':
+            srcs.append(emg3d.TxMagneticDipole((x, y, z, az, el)))
+        elif kind == 'ep':
+            srcs.append(emg3d.TxElectricPoint((x, y, z, az, el)))
+        else:
+            srcs.append(emg3d.TxMagneticPoint((x, y, z, az, el)))
+    recs = []
+    c0 = srcs[0].center
+    for k in range(nrec):
+        cls = rng.choice([emg3d.RxElectricPoint, emg3d.RxElectricPoint, emg3d.RxMagneticPoint])
+        az, el = rng.choice([0.0, 60.0, 90.0]), rng.choice([0.0, 0.0, 90.0])
+        x, y, z = float(rpos[k][0]), float(rpos[k][1]), zc()
+        if rel[k]:
+            recs.append(cls((x - c0[0], y - c0[1], z - c0[2], az, el), relative=True))
+        else:
+            recs.append(cls((x, y, z, az, el)))
+    nfreq = rng.choice([2, 3, 3])
+    freqs = sorted(rng.sample([0.25, 0.5, 1.0, 2.0, 4.0], nfreq))
+    survey = emg3d.Survey(srcs, recs, freqs, noise_floor=1e-15, relative_error=0.05)
+    flags = mask_flags(name, nsrc, nrec, nfreq, rng)
+    obs = np.zeros(survey.shape, complex)
+    for i3 in itertools.product(*[range(m) for m in survey.shape]):
+        obs[i3] = complex(K.dy(rng) or 1.0, K.dy(rng)) * 2.0 ** -36 if flags[i3] else np.nan
+    survey.data.observed[...] = obs
+    method = MASK_METHODS[(ki + seed) % len(MASK_METHODS)]
+    lopts = {'method': method}
+    if method in ('prism', 'cylinder'):
+        lopts['ellipse'] = rand_ellipse(rng, hs)
+    if (ki + seed) % 4 == 3:
+        lopts['merge'] = True
+    return dict(klass=name, ki=ki, seed=seed, hs=hs, org=org, grid=grid, model=model, mapping=mapping, case=case,
+                survey=survey, flags=flags, lopts=lopts, offsets=offs, rng=rng)
+
+
+def mask_brief(pb):
+    sv, model = pb['survey'], pb['model']
+    return dict(mask_class=pb['klass'], mask_class_index=pb['ki'], seed=pb['seed'], mapping=pb['mapping'],
+                case=pb['case'], hx=pb['hs'][0], hy=pb['hs'][1], hz=pb['hs'][2], origin=pb['org'],
+                profiles={nm: getattr(model, nm)[0, 0, :].tolist() for nm in model._def_properties},
+                layered_opts=pb['lopts'],
+                sources=[[k, s_.__class__.__name__, [float(x) for x in s_.coordinates]]
+                         for k, s_ in sv.sources.items()],
+                receivers_in_order=[[k, r.__class__.__name__, [float(x) for x in r.coordinates], bool(r.relative)]
+                                    for k, r in sv.receivers.items()],
+                receiver_offsets_from_first_source=pb['offsets'],
+                frequencies=[float(f) for f in sv.frequencies.values()],
+                observed_finite=[[sk, [[rk, [bool(b) for b in pb['flags'][si, ri]]]
+                                       for ri, rk in enumerate(sv.receivers.keys())]]
+                                 for si, sk in enumerate(sv.sources.keys())])
+
+
+def mask_profile(pb):
+    model, grid = pb['model'], pb['grid']
+    bw = model.map.backward
+    vti = model.case == 'VTI'
+    return dict(ch=bw(model.property_x[0, 0, :]), cv=bw(model.property_z[0, 0, :]) if vti else None,
+                ep=model.epsilon_r[0, 0, :] if model.epsilon_r is not None else None,
+                mp=model.mu_r[0, 0, :] if model.mu_r is not None else None, depth=grid.nodes_z[1:-1])
+
+
+def mask_reference(pb):
+    """{(source label, receiver label): (reference at the SELECTED frequencies scattered on all
+    frequencies, rounding noise)}: empymod of the known profile, evaluated per LABEL, at the
+    receiver's absolute position for that source."""
+    sv = pb['survey']
+    pr = mask_profile(pb)
+    freqs = np.array([float(f) for f in sv.frequencies.values()])
+    has = bool(pb['flags'].any())
+    out = {}
+    for si, (sk, src) in enumerate(sv.sources.items()):
+        for ri, (rk, rec) in enumerate(sv.receivers.items()):
+            f = pb['flags'][si, ri] if has else np.ones(freqs.size, bool)
+            ref = np.full(freqs.size, np.nan + 1j * np.nan)
+            noise = np.zeros(freqs.size)
+            if f.any():
+                ref[f], noise[f] = bipole_noise(src, rec, pr['depth'], pr['ch'], pr['cv'], pr['ep'], pr['mp'], freqs[f])
+            out[(sk, rk)] = (ref, noise)
+    return out
+
+
+def mask_run_impl(pb):
+    """Simulation(layered=True).compute() on the problem; returns (sim, synthetic copy | exception)."""
+    import emg3d
+    with warnings.catch_warnings():
+        warnings.simplefilter('ignore')
+        try:
+            sim = emg3d.Simulation(pb['survey'].copy(), pb['model'], layered=True, layered_opts=dict(pb['lopts']),
+                                   max_workers=1, tqdm_opts=False, gridding='same', verb=-1)
+            sim.compute()
+            return sim, sim.data.synthetic.data.copy()
+        except Exception as e:    # noqa
+            return None, e
+
+
+def close_ref(v, ref, noise):
+    return bool(np.isfinite(v)) and (rel_close(v, ref, 1e-8) or abs(v - ref) <= 100 * noise)
+
+
+def whose_response(v, refs):
+    """Diagnostic: the (source, receiver, frequency index) whose reference the value equals."""
+    for (sk, rk), (ref, noise) in refs.items():
+        for fj in range(ref.size):
+            if np.isfinite(ref[fj]) and close_ref(v, ref[fj], noise[fj]):
+                return [sk, rk, fj]
+    return None
+
+
+def mask_layer_sums(pb, sim):
+    """Layer sums of the raw layered FD gradient vs the misfit change under a uniform perturbation
+    of the layer, over the receivers with finite data (theorem fd_gradient_layer_sum evaluated with
+    empymod).  Returns None or a description of the first mismatch."""
+    sv = pb['survey']
+    pr = mask_profile(pb)
+    srcs, recs = list(sv.sources.values()), list(sv.receivers.values())
+    freqs = np.array([float(f) for f in sv.frequencies.values()])
+    fin = pb['flags']
+    obs = sv.data.observed.data
+    with warnings.catch_warnings():
+        warnings.simplefilter('ignore')
+        try:
+            phi0 = float(sim.misfit)
+            raw = np.array(sim._compute_1d(gradient=True))
+        except Exception as e:    # noqa
+            return dict(error=repr(e))
+    w_all = sim.data.weights.data
+    for comp, cond in ((0, pr['ch']), (2, pr['cv'])):
+        if cond is None:
+            continue
+        for k in range(len(cond)):
+            cp = cond.copy()
+            delta = cp[k] * 0.0001
+            cp[k] += delta
+            a, b = (cp, pr['cv']) if comp == 0 else (pr['ch'], cp)
+            phi1 = 0.0
+            for si, ri in itertools.product(range(len(srcs)), range(len(recs))):
+                f = fin[si, ri, :]
+                if not f.any():
+                    continue
+                r = np.atleast_1d(bipole_direct(srcs[si], recs[ri], pr['depth'], a, b, pr['ep'], pr['mp'],
+                                                freqs[f])) - obs[si, ri, f]
+                phi1 += np.sum(w_all[si, ri, f] * (r.conj() * r)).real / 2
+            req = (phi1 - phi0) / delta
+            got = raw[comp, :, :, k].sum()
+            if not abs(got - req) <= 1e-6 * abs(req) + 1e-8 * phi0 / delta:      # NaN is a mismatch
+                return dict(component='hv'[comp // 2], layer=k, observed_value=float(got), required=float(req))
+    return None
+
+
+def coq_strs(l):
+    return '[' + '; '.join(V.coq_str(x) for x in l) + ']'
+
+
+def mask_case_coq(pb):
+    """compute_1d of Model/LayeredAsm.v on the survey's labels and the finite flags READ FROM the
+    observed DataArray (under ITS coordinates); tokens = positions in alphabetically sorted label
+    tables (not the dict order)."""
+    sv = pb['survey']
+    srcs, keys = list(sv.sources.keys()), list(sv.receivers.keys())
+    da = sv.data.observed
+    slab, rlab = [str(x) for x in da.coords['src'].values], [str(x) for x in da.coords['rec'].values]
+    fin = np.isfinite(da.data)
+    obs = '[' + ';\n '.join(
+        f"({V.coq_str(sk)}, [" + '; '.join(
+            f"({V.coq_str(rk)}, [" + '; '.join(V.coq_bool(bool(b)) for b in fin[si, ri]) + "])"
+            for ri, rk in enumerate(rlab)) + "])" for si, sk in enumerate(slab)) + ']'
+    pb['stab'], pb['rtab'] = sorted(srcs), sorted(keys)
+    nf = fin.shape[2]
+    fz = '[' + '; '.join(str(j) for j in range(nf)) + ']'
+    return (f"Eval vm_compute in show_asm (compute_1d (Z * Z * Z) Z {fz} (tok3 {coq_strs(pb['stab'])} "
+            f"{coq_strs(pb['rtab'])}) {coq_strs(srcs)} {coq_strs(keys)} {obs}).\n")
+
+
+def run_masks(ctx, dis, hist):
+    """(M): every mask class on the REAL Simulation(layered=True); every (src, rec, freq) slot is
+    compared with what the Coq assembly model (compute_1d) says it holds -- NaN, or the reference
+    response of a (source label, receiver label, frequency), evaluated by empymod per label."""
+    nseeds = 3 if ctx.thorough else 1
+    pbs = []
+    for _ in range(nseeds):
+        seed = ctx.rng.randint(0, 2 ** 30)
+        pbs += [mask_problem(seed, ki) for ki in range(len(MASK_CLASSES))]
+    txt = ASM_HEADER + ''.join(mask_case_coq(pb) for pb in pbs)
+    rc, out = V.coq_eval('c19_m_0', txt)
+    if rc != 0:
+        dis.append({'what': 'assembly model (compute_1d) does not evaluate', 'log': out[-1500:]})
+        return 0, 0
+    answers = [parse_term(a) for a in V.eval_answers(out)]
+    n, ok = 0, 0
+    for pb, ans in zip(pbs, answers):
+        sv = pb['survey']
+        srcs, keys = list(sv.sources.keys()), list(sv.receivers.keys())
+        hist['mask:' + pb['klass']] = hist.get('mask:' + pb['klass'], 0) + 1
+        hist['mask-method:' + pb['lopts']['method']] = hist.get('mask-method:' + pb['lopts']['method'], 0) + 1
+        sim, syn = mask_run_impl(pb)
+        if isinstance(syn, Exception):
+            dis.append({'what': 'Simulation(layered=True).compute raised (mask classes)', 'case': mask_brief(pb),
+                        'impl': repr(syn)})
+            continue
+        if [str(x) for x in sim.data.synthetic.coords['rec'].values] != keys or \
+                [str(x) for x in sim.data.synthetic.coords['src'].values] != srcs:
+            dis.append({'what': 'synthetic data coordinates are not the survey labels in order',
+                        'case': mask_brief(pb)})
+            continue
+        refs = mask_reference(pb)
+        nd = len(dis)
+        if [len(ans), len(ans[0]), len(ans[0][0])] != list(syn.shape):
+            dis.append({'what': 'shape of the layered result differs from the assembly model', 'case': mask_brief(pb),
+                        'impl': list(syn.shape), 'model': [len(ans), len(ans[0]), len(ans[0][0])]})
+            continue
+        for si, ri, fj in itertools.product(*[range(m) for m in syn.shape]):
+            some, (ts, tr, tf) = ans[si][ri][fj]
+            v = syn[si, ri, fj]
+            n += 1
+            trip = dict(index=[si, ri, fj], source=srcs[si], receiver=keys[ri])
+            if not some:
+                hist['mask-slot:nan'] = hist.get('mask-slot:nan', 0) + 1
+                if not np.isnan(v):
+                    dis.append({'what': 'layered mode filled a slot the assembly model leaves NaN (no finite '
+                                'observed datum there)', 'case': mask_brief(pb), 'triple': trip, 'impl': str(v),
+                                'model': 'NaN', 'impl_equals_reference_of': whose_response(v, refs)})
+                    break
+                continue
+            hist['mask-slot:computed'] = hist.get('mask-slot:computed', 0) + 1
+            sk, rk = pb['stab'][ts], pb['rtab'][tr]
+            ref, noise = refs[(sk, rk)]
+            if not close_ref(v, ref[tf], noise[tf]):
+                dis.append({'what': 'slot of the layered result does not hold the reference response of the (source, '
+                            'receiver label, frequency) the assembly model puts there', 'case': mask_brief(pb),
+                            'triple': trip, 'impl': str(v),
+                            'model': dict(response_of=[sk, rk, tf], value=str(ref[tf])),
+                            'impl_equals_reference_of': None if not np.isfinite(v) else whose_response(v, refs)})
+                break
+        if len(dis) == nd and pb['klass'] in MASK_GRAD_CLASSES:
+            bad = mask_layer_sums(pb, sim)
+            n += 1
+            hist['mask:gradient-layer-sums'] = hist.get('mask:gradient-layer-sums', 0) + 1
+            if bad:
+                dis.append({'what': 'layer sum of the layered FD gradient differs from the misfit change over the '
+                            'receivers with finite data (fd_gradient_layer_sum)', 'case': mask_brief(pb), **bad})
+        if len(dis) == nd:
+            ok += 1
+    return n, ok
+
+
+def mask_search_case(seed, ki):
+    """Searcher block 'mask' (independent of the Coq model): the property itself on mask class
+    [ki] -- slot (s, r, f) must hold empymod of the profile for source s / receiver r (by label)
+    / frequency f where the observed datum is finite (everywhere if there is none at all) and
+    NaN elsewhere.  Returns None or a hit with the concrete survey + mask + mismatching triple."""
+    pb = mask_problem(seed, ki)
+    sv = pb['survey']
+    srcs, keys = list(sv.sources.keys()), list(sv.receivers.keys())
+    base = dict(mask_brief(pb), block='mask')
+    sim, syn = mask_run_impl(pb)
+    if isinstance(syn, Exception):
+        return dict(base, signature='layered mode raised on a valid laterally invariant problem (mask classes)',
+                    error=repr(syn))
+    refs = mask_reference(pb)
+    want = pb['flags'] if pb['flags'].any() else np.ones(pb['flags'].shape, bool)
+    for si, ri, fj in itertools.product(*[range(m) for m in syn.shape]):
+        v = syn[si, ri, fj]
+        trip = dict(index=[si, ri, fj], source=srcs[si], receiver=keys[ri],
+                    frequency=float(list(sv.frequencies.values())[fj]))
+        ref, noise = refs[(srcs[si], keys[ri])]
+        if not want[si, ri, fj]:
+            if not np.isnan(v):
+                return dict(base, signature='layered mode: a triple without finite observed data is filled',
+                            triple=trip, observed_value=str(v), required='NaN',
+                            observed_value_is_the_reference_of=whose_response(v, refs))
+        elif not close_ref(v, ref[fj], noise[fj]):
+            return dict(base, signature='layered mode: a triple with finite observed data does not hold the 1D '
+                        'reference response of its own source / receiver / frequency', triple=trip,
+                        observed_value=str(v), required=str(ref[fj]),
+                        observed_value_is_the_reference_of=(None if not np.isfinite(v)
+                                                            else whose_response(v, refs)))
+    if pb['klass'] in MASK_GRAD_CLASSES:
+        bad = mask_layer_sums(pb, sim)
+        if bad:
+            return dict(base, signature='layer sum of the layered FD gradient differs from the misfit change '
+                        'under a uniform perturbation of the layer (receivers without data present)', **bad)
+    return None
+
+
 def correspondence(ctx):
     dis, hist = [], {}
     nx = 400 if ctx.thorough else 120
@@ -1250,8 +1682,9 @@ def correspondence(ctx):
     done, dx, xs = run_extract(ctx, nx, dis, hist)
     hdone, hx = run_extract_histories(ctx, 60 if ctx.thorough else 20, dis, hist)
     nsim, triples, ng, dsim, ss = run_sims(ctx, ns, ngr, dis, hist)
-    done += hdone
-    dx += hx
+    mslots, mok = run_masks(ctx, dis, hist)
+    done += hdone + mslots
+    dx += hx + mok
     return {
         'evaluations': done + triples + ng,
         'distinct_nontrivial': dx + dsim,
@@ -1268,7 +1701,14 @@ def correspondence(ctx):
                 "simulation, [compute(+misfit, gradient), edit(s), clean('computed'), compute(+misfit, "
                 "gradient)]; edits = in-place writes through the property getters' arrays (layer / cell / "
                 "block of property_x/y/z, mu_r, epsilon_r) or, as control, the setters; every answer is "
-                "compared with the model evaluated on the arrays as they are at that moment.",
+                "compared with the model evaluated on the arrays as they are at that moment. (M) result "
+                "assembly: 18 enumerated classes of finite-observed-data masks (dataless receiver first / "
+                "middle / last, two in a row, all but one, alternating, partial gaps, per-source different, "
+                "dataless source, no observed data, full, eleven receivers, random) x five methods round-"
+                "robin on laterally invariant models with receivers at distinct offsets (>= 500 m steps); "
+                "every (src, rec, freq) slot vs Model/LayeredAsm.v compute_1d evaluated on the labels and "
+                "finite flags of the survey, tokens resolved to empymod per (source label, receiver label, "
+                "frequency); gradient layer sums for two of the classes.",
         'samples': xs + ss,
         'traces_validated_against_impl': done + nsim + ng,
         'histogram': hist,
@@ -1457,7 +1897,7 @@ def search_case(seed, thorough=False, skip=()):
                 req = (phi1 - phi0) / delta
                 got = raw[comp, :, :, k].sum()
                 tol = 1e-6 * abs(req) + 1e-8 * phi0 / delta
-                if abs(got - req) > tol:
+                if not abs(got - req) <= tol:          # a NaN layer sum is a mismatch too
                     return dict(base, block='grad', signature='layer sum of the layered FD gradient differs from the misfit '
                                 'change under a uniform perturbation of the layer',
                                 layered_opts=dict(sim.layered_opts), component='hv'[comp // 2], layer=k,
@@ -1543,12 +1983,33 @@ def search_history(rng, base, model, mapping, vti, grid, hs, org, survey, sims, 
     return None
 
 
+SEARCH_CLASS_BITS = [8, 0, 13, 10, 5, 9, 3, 14, 11, 6, 12, 1, 15, 2, 4, 7]
+
+
 def search(ctx, broken):
     rng = ctx.rng
     n = 24 if ctx.thorough else 8
     hits, sigs = [], set()
-    for _ in range(n):
-        seed = rng.randint(0, 2 ** 40)
+    # block 'mask': every enumerated class of finite-observed-data masks (dataless receivers first /
+    # middle / last / in a row / all but one, partial gaps, dataless source, no data, ...), receivers
+    # at distinct offsets; oracle = empymod of the profile per (source, receiver LABEL, frequency)
+    for mseed in [rng.randint(0, 2 ** 30) for _ in range(2 if ctx.thorough else 1)]:
+        for ki in range(len(MASK_CLASSES)):
+            try:
+                h = mask_search_case(mseed, ki)
+            except Exception as e:    # noqa -- a valid problem must not raise
+                import traceback
+                h = {'signature': 'layered mode raised on a valid laterally invariant problem (mask classes)',
+                     'seed': mseed, 'mask_class_index': ki, 'error': repr(e),
+                     'trace': traceback.format_exc()[-1200:]}
+            if h and h['signature'] not in sigs:
+                sigs.add(h['signature'])
+                hits.append(h)
+    for it in range(n):
+        # the low four bits of the seed select the column class in search_case (top -1 / equal
+        # neighbours / extreme range / recurring layers): enumerated, not drawn -- among any 8
+        # consecutive searches 3 use extreme-range columns, 3 recurring layers, 2 neither
+        seed = (rng.randint(0, 2 ** 36) << 4) | SEARCH_CLASS_BITS[it % 16]
         skip = set()
         for _ in range(5):        # after a failing block, look for independent failures in the others
             try:
@@ -1566,9 +2027,11 @@ def search(ctx, broken):
             if 'block' not in h:
                 break
             skip.add(h['block'])
-        if len(hits) >= 3:
+        if len(hits) >= 4:
             break
-    ctx.notes.append(f"searcher: up to {n} laterally invariant random problems (relative receivers, -1 on top of "
+    ctx.notes.append(f"searcher: {len(MASK_CLASSES)} enumerated mask classes (block 'mask': slot-by-slot vs empymod per "
+                     "receiver label, gradient layer sums for two classes); then "
+                     f"up to {n} laterally invariant random problems (relative receivers, -1 on top of "
                      "log maps, merge) x 8 method/ellipse/merge settings; responses vs empymod of the profile at "
                      "the absolute receiver position, finite mask, weights, layers and interfaces (merged models "
                      "expanded), gradient layer sums with and without merge")
@@ -1579,6 +2042,11 @@ def replay(ctx, payload):
     fi = payload.get('failing_input')
     if not fi or 'seed' not in fi:
         return False
+    if fi.get('block') == 'mask' or 'mask_class_index' in fi:
+        try:
+            return mask_search_case(int(fi['seed']), int(fi['mask_class_index'])) is None
+        except Exception:    # noqa
+            return False
     try:
         return search_case(int(fi['seed']), payload.get('tier') == 'thorough',
                            tuple(fi.get('skip', ()))) is None
